@@ -55,6 +55,7 @@ class CxFormulas:
                     b = cxa.lvalue_base(inner[0] if inner else base)
                     if b and b[1] in ("mesh_neighbors", "mesh_neighbor_index"):
                         self.cellvars[uname(n)] = "j"
+                        self.cellvars[cxa.canon(init)] = "j"      # a const local is written out by the canonicaliser
                         if inner:
                             src = cxa.canon(inner[1])
                             self.nbrvar = cxa.canon(sub[1])
@@ -69,7 +70,7 @@ class CxFormulas:
                         if src is None:
                             raise AnalysisError("%s: neighbour lookup form not recognised" % self.f.qual)
                         self.cellvars[src] = "i"
-        if sorted(self.cellvars.values()) != ["i", "j"]:
+        if sorted(set(self.cellvars.values())) != ["i", "j"]:
             raise AnalysisError("%s: source / destination cells not identified" % self.f.qual)
 
     def role(self, cell_text):
